@@ -1150,6 +1150,11 @@ func (x *gen) environment(findings bool) []string {
 			st = append(st, n+" = func("+strings.Join(x.params(), ", ")+") "+x.g.Block(1+x.intn(2)))
 		}
 	}
+	// a function or lambda whose body holds string literals over the whole byte universe (incl. raw-string sources)
+	if x.intn(3) == 0 {
+		s, _ := x.strFunc()
+		st = append(st, s)
+	}
 	// history: a function writes a global through a reference; an alias of a function; a one-line quote
 	switch x.intn(8) {
 	case 0:
@@ -1261,8 +1266,8 @@ func run(c *Ctx) {
 			// a named function whose saved line is long relative to the limit (named functions are not subject to it),
 			// with data globals sorted after it
 			base := e.maxLen
-			if base == 0 {
-				base = 3000
+			if base == 0 || base > 200 {
+				base = 300 // the model prints it too (quadratic): the 4000 / 70000 byte cases are in the session oracle
 			}
 			e.stmts = append(e.stmts, fnOfLen("hlong", int(float64(base)*[]float64{1, 1.2, 2}[c.R.Intn(3)])), "zlast = [1, \"t\"]")
 		}
